@@ -81,10 +81,10 @@ def gmatch(p, s):
     return len(s) >= 1 and s[0] == c and gmatch(p[1:], s[1:])
 
 
-NAMES = ['report ', 'report', 'end\t', ' lead', 'per%41', 'perA', 'r%20f', 'r f', '100%25', '100%', 'a', 'A', 'b', 'ab', 'abc', 'foo', 'Foo', 'foo.txt', 'foobar', 'a*', 'a?', '[a]', 'a b', '*', '?', 'x.trashinfo', 'é', 'n\nl', '-', ']', 'a]',
+NAMES = ['report ', 'report', 'end\t', ' lead', 'per%41', 'perA', 'r%20f', 'r f', '100%25', '100%', 'a', 'A', 'b', 'ab', 'abc', 'foo', 'Foo', 'foo.txt', 'foobar', 'a*', 'a?', '[a]', 'a b', '*', '?', 'x.trashinfo', 'é', 'n\nl', '-', '-draft.txt', '--force', '--version', '--help', ']', 'a]',
          'cafe\u0301', 'caf\xe9', '\u212b', '\xc5']              # the same glyph spelt in two ways: two different names
 PATS = ['cafe\u0301', 'caf\xe9', 'caf*', '\u212b', '\xc5', 'report', 'report ', 'report?', '* ', 'end*', 'per%41', 'perA', 'r%20f', 'r f', 'per*', '100%', '100%25', 'a', 'A', 'foo', 'foo*', '*foo', '*', '?', '??', 'a?', 'a*', '[ab]', '[!a]', '[a-c]', '[a-c]*', '*.txt', 'f*o', 'a[*]', 'a[?]', '[[]a]', '[]]',
-        'a b', '*\n*', '/*', '/*/a', '/home/u/*', '/home/u/d/a', '/vol1/*', '/vol1/d/?', 'x.trashinfo', '*.trashinfo', 'é', '[!a-z]*', 'ab*', '*b*', '/']
+        'a b', '*\n*', '-', '-*', '--*', '-draft*', '--force', '--version', '--help', '/*', '/*/a', '/home/u/*', '/home/u/d/a', '/vol1/*', '/vol1/d/?', 'x.trashinfo', '*.trashinfo', 'é', '[!a-z]*', 'ab*', '*b*', '/']
 
 
 def gen(rng, n):
